@@ -331,6 +331,13 @@ where
 {
     fn read(&mut self, buf: &mut [u8]) -> std::io::Result<usize> {
         self.fill_inner()?;
+        if let Self::Data { buffer, .. } = self {
+            if !buffer.has_remaining() {
+                // The source was empty, there is no data to hand out.
+                // Move on to the MDC, instead of signaling the end of the stream early.
+                self.fill_inner()?;
+            }
+        }
         match self {
             Self::Prefix { prefix, .. } => {
                 // Prefix
